@@ -28,6 +28,7 @@ from .base import (
     NostrQuery,
     ValidationError,
     event_from_json,
+    is_hex,
 )
 from ..config import Config
 from ..errors import StorageError
@@ -594,12 +595,12 @@ class WriterThread(threading.Thread):
 
         elif event.kind == EventKind.DELETE:
             # delete the referenced events
-            try:
-                ids = set(
-                    (bytes_from_hex(tag[1]) for tag in event.tags if tag[0] == "e")
-                )
-            except IndexError:
-                ids = []
+            # e tags that are not event ids refer to nothing
+            ids = set(
+                bytes.fromhex(tag[1])
+                for tag in event.tags
+                if tag[0] == "e" and len(tag) > 1 and is_hex(tag[1], 64)
+            )
             if not ids:
                 return
             with INDEXES["authors"].scanner(
